@@ -40,7 +40,7 @@ def scripted_histories(tier, seed):
     return out if tier == "thorough" else out[:140]
 
 
-def run_scenario(sc, DDEHistory, failures, counters):
+def run_scenario(sc, DDEHistory, failures, counters, factory=None):
     rng = np.random.default_rng(sc["seed"])
     dt = np.dtype(sc["dtype"])
 
@@ -74,6 +74,25 @@ def run_scenario(sc, DDEHistory, failures, counters):
     h = DDEHistory.__new__(DDEHistory)
     call("__init__", h, y0=y0, t0=t, max_steps=sc["max_steps"])
     recs = [(t, y0.copy())]
+    if factory is not None:
+        # the factory the compiled DDE models use (BaseBackend.get_hist_func): same postcondition as the growable constructor,
+        # for every state shape and dtype
+        counters["calls"] += 1
+        try:
+            h2 = factory(y0.copy(), t0=t)
+            bad = []
+            if h2._n != 1 or float(h2._t[0]) != t:
+                bad.append("get_hist_func(y, t0): one record at time t0")
+            if not native._eq(h2._y[0], y0, 0) or h2._y.dtype != dt:
+                bad.append("get_hist_func(y, t0): the first record is exactly y (values and dtype of the state)")
+            if not native._eq(h2(t - 1.0), y0, 0) or not native._eq(h2(t + 1.0), y0, 0):
+                bad.append("get_hist_func(y, t0): queries return exactly y before any update")
+        except Exception as exn:
+            bad = [f"no-exception:{type(exn).__name__}: {exn}"]
+        if bad:
+            failures.append(dict(site="C19/BaseBackend.get_hist_func", site_class="C19/BaseBackend.get_hist_func", clauses=bad,
+                                 input=dict(scenario=sc, y0=np.asarray(y0).tolist() if dt.kind != "c" else str(np.asarray(y0).tolist()), t0=t),
+                                 features=dict(method="get_hist_func")))
     keep = []          # caller-side arrays that are mutated after the call (records must be copies)
     for i in range(sc["updates"]):
         t = t + float(rng.integers(1, 5)) / 4.0
@@ -156,7 +175,7 @@ def bounded(chk, label):
         scs = scripted_histories(chk.tier, chk.seed)
         distinct = set()
         for sc in scs:
-            run_scenario(sc, D, failures, counters)
+            run_scenario(sc, D, failures, counters, factory=getattr(getattr(mod, "BaseBackend", None), "get_hist_func", None))
             if sc["updates"] > 0:
                 distinct.add((sc["dtype"], sc["shape"], sc["max_steps"], sc["updates"]))
             if len(failures) > 5:
